@@ -36,6 +36,8 @@ class EqvCase:
     direct: bool = False                 # build the simulations by hand instead of through the builder
     member_seed: int = 0                 # order of the member lists inside the households of the document
     holes: list = field(default_factory=list)   # [(input number, [entity indices that carry NO value in the document])]
+    own: dict = field(default_factory=dict)     # {household index: person index}: households that are NOT in the document -- the
+                                                # person is listed in no household and the builder appends a household of its own
 
 
 # --------------------------------------------------------------------------------------
@@ -80,18 +82,34 @@ def _doc_value(var: rs.Var, x: int):
     return int(x)
 
 
+def _gid(e: EqvCase, g: int) -> str:
+    """id of household g: its declared id, or (own household appended by the builder) its person's id"""
+    own = getattr(e, "own", None) or {}
+    return e.pids[own[g]] if g in own else e.gids[g]
+
+
 def document(e: EqvCase, sel, gsel) -> dict:
     """the situation made of the persons `sel` and the households `gsel`, in that order, as the
     JSON-like document the web API / YAML tests / `build_from_entities` take.  A household lists
-    ALL the members it has in the merged population (for a closed selection: the kept ones)."""
+    ALL the members it has in the merged population (for a closed selection: the kept ones), each
+    under its role.  Households of `e.own` are not written: their person is listed nowhere."""
     c = e.case
+    own = getattr(e, "own", None) or {}
+    roles = list(getattr(c, "roles", None) or [0] * c.nP)
     rng = random.Random(e.member_seed)
     persons = {e.pids[i]: {} for i in sel}
     households = {}
     for g in gsel:
-        members = [e.pids[i] for i in range(c.nP) if c.mem[i] == g]
+        if g in own:
+            continue
+        h = {}
+        members = [i for i in range(c.nP) if c.mem[i] == g]
         rng.shuffle(members)
-        households[e.gids[g]] = {"members": members} if members or rng.random() < 0.5 else {}
+        for i in members:
+            h.setdefault(rs.ROLES[roles[i]]["plural"], []).append(e.pids[i])
+        if not members and rng.random() < 0.5:
+            h["members"] = []
+        households[e.gids[g]] = h
     holes = {k: set(idx) for k, idx in e.holes}
     for k, (v, tok, vals) in enumerate(c.inputs):
         var = c.vars[v]
@@ -103,19 +121,26 @@ def document(e: EqvCase, sel, gsel) -> dict:
                     persons[e.pids[i]].setdefault(f"v{v}", {})[key] = _doc_value(var, vals[i])
         else:
             for g in gsel:
-                if g not in skip:
+                if g not in skip and g not in own:
                     households[e.gids[g]].setdefault(f"v{v}", {})[key] = _doc_value(var, vals[g])
-    return {"persons": persons, "households": households}
+    doc = {"persons": persons, "households": households}
+    if not households and rng.random() < 0.5:
+        del doc["households"]                    # no household declared at all: the builder's default groups
+    return doc
 
 
 def restricted_case(c: rs.SysCase, sel, gsel) -> rs.SysCase:
     """the part as a population of its own (used by the `direct` stream)"""
     mem = [gsel.index(c.mem[i]) for i in sel]
     inputs = [(v, tok, [vals[i] for i in (sel if c.vars[v].entity == 0 else gsel)]) for v, tok, vals in c.inputs]
-    return rs.SysCase(len(sel), len(gsel), mem, c.msl, c.vars, inputs, c.reqs)
+    roles = list(getattr(c, "roles", None) or [])
+    return rs.SysCase(len(sel), len(gsel), mem, c.msl, c.vars, inputs, c.reqs, roles=[roles[i] for i in sel] if roles else [])
 
 
-def _run_requests(c: rs.SysCase, sim, ctx) -> str:
+def _run_requests(c: rs.SysCase, sim, ctx, gperm=None) -> str:
+    """`gperm`: position in the simulation of each household of the selection (the builder appends
+    the own households of unlisted persons in set-iteration order; household-level answers are
+    read in the selection's order)"""
     ctx.armed.clear()
     outs = []
     for r in c.reqs:
@@ -127,6 +152,8 @@ def _run_requests(c: rs.SysCase, sim, ctx) -> str:
         try:
             p = parse_period_token(tok)
             res = sim.calculate(f"v{v}", p) if kind == "calc" else sim.calculate_add(f"v{v}", p)
+            if gperm is not None and c.vars[v].entity != 0:
+                res = res[gperm]
             o = "ok:" + rs.canon_array(res)
         except Exception as exc:          # the implementation's error, classified
             o = rs.classify(exc)
@@ -158,6 +185,14 @@ def impl(case: Case) -> str:
                 outs.append("ERR")
                 continue
             sim.max_spiral_loops = c.msl
+            ids = [str(x) for x in sim.household.ids]
+            canon = [_gid(e, g) for g in gsel]
+            if sorted(ids) != sorted(canon) or [str(x) for x in sim.persons.ids] != [e.pids[i] for i in sel]:
+                outs.append("IDS")               # the builder did not create the entities of the document
+                continue
+            gperm = None if ids == canon else [ids.index(x) for x in canon]
+            outs.append(_run_requests(c, sim, ctx, gperm))
+            continue
         outs.append(_run_requests(c, sim, ctx))
     return "~".join(outs)
 
@@ -186,12 +221,17 @@ def oracle(case: Case, out: str):
     parts = out.split("~")
     if len(parts) != 1 + len(e.sels):
         return ("harness-shape", f"{len(parts)} answers for {1 + len(e.sels)} simulations")
+    if parts[0] == "IDS":
+        return ("builder-entities", "the merged simulation does not have the document's persons and households")
     if parts[0] == "ERR":
         return ("builder-refused", "the merged situation (every person in exactly one listed household) was refused by the builder")
     merged = parts[0].split(";")
     for (kind, sel, gsel), part in zip(e.sels, parts[1:]):
         if not is_closed(c, sel, gsel):
             continue                        # not a situation: nothing is claimed about it
+        if part == "IDS":
+            return ("builder-entities", f"{kind} selection persons={sel} households={gsel}: the built simulation does not have the document's persons "
+                                        f"(in document order) and households (declared ones plus one per person listed in no household)")
         if part == "ERR":
             return ("builder-refused", f"{kind} selection persons={sel} households={gsel} is a valid situation and was refused by the builder")
         got = part.split(";")
@@ -231,13 +271,16 @@ def nontrivial(case: Case, out: str) -> bool:
 # generators
 
 
-def gen_population(rng: random.Random):
+def gen_population(rng: random.Random, unlisted=False):
     """2-3 situations, each with its own persons and households (possibly a household without
-    member), merged in a random order (or simply concatenated).
-    -> nP, nG, mem, person situation, household situation"""
+    member), merged in a random order (or simply concatenated).  Roles: in 75% of the households
+    one member is the head (unique role), up to two others are parents, the rest plain members.
+    `unlisted`: some persons are listed in NO household; the builder gives each a household of its
+    own, appended after the declared ones (here: in person order).
+    -> nP, nG, mem, roles, person situation, household situation, own {household: person}, k"""
     k = rng.choice([2, 2, 3])
     persons, groups = [], []                      # (situation, local id)
-    p_group = {}
+    p_group, p_role, loose = {}, {}, set()
     for s in range(k):
         nP = rng.randint(1, 4)
         nG = rng.randint(1, min(3, nP))
@@ -245,8 +288,18 @@ def gen_population(rng: random.Random):
         rng.shuffle(mem)
         if rng.random() < 0.15:
             nG += 1                               # a household nobody lives in
+        if unlisted and rng.random() < 0.65:
+            for i in rng.sample(range(nP), rng.randint(1, min(2, nP))):
+                loose.add((s, i))
         for j in range(nG):
             groups.append((s, j))
+            members = [i for i in range(nP) if mem[i] == j and (s, i) not in loose]
+            rng.shuffle(members)
+            if members and rng.random() < 0.75:
+                p_role[(s, members.pop())] = rs.UNIQUE_ROLE
+            for i in members[:2]:
+                if rng.random() < 0.4:
+                    p_role[(s, i)] = 1
         for i in range(nP):
             persons.append((s, i))
             p_group[(s, i)] = (s, mem[i])
@@ -255,9 +308,71 @@ def gen_population(rng: random.Random):
         rng.shuffle(groups)
     elif rng.random() < 0.5:
         rng.shuffle(groups)                       # persons concatenated, households interleaved
+    own = {}
+    for i, pp in enumerate(persons):
+        if pp in loose:
+            own[len(groups)] = i
+            p_group[pp] = ("own", pp)
+            groups.append(("own", pp))
     gpos = {g: j for j, g in enumerate(groups)}
     mem = [gpos[p_group[p]] for p in persons]
-    return len(persons), len(groups), mem, [p[0] for p in persons], [g[0] for g in groups], k
+    roles = [p_role.get(p, 0) for p in persons]
+    gsit = [g[1][0] if g[0] == "own" else g[0] for g in groups]
+    return len(persons), len(groups), mem, roles, [p[0] for p in persons], gsit, own, k
+
+
+def _role_heavy(rng: random.Random, vars_: list) -> list:
+    """append monthly variables built on the role operations: the head's value per household
+    (`value_from_person`), its projection back onto the members ("the income of my head"), a
+    role-filtered sum plus a count of role holders, `any` over a role."""
+    def person_atom():
+        cands = [j for j, v in enumerate(vars_) if v.entity == 0 and rs._compat(v, "month")]
+        if cands and rng.random() < 0.85:
+            j = rng.choice(cands)
+            pt, add = rng.choice(rs._compat(vars_[j], "month"))
+            return ("v", j, pt, add)
+        return ("c", rng.randint(1, 9))
+    out = []
+    H = rs.UNIQUE_ROLE
+    h = len(vars_)
+    vars_.append(rs.Var(entity=1, vtype=rng.choice(["int", "float"]), unit="month", dflt=rng.randint(-3, 5),
+                        formulas=[(1, ("o1", 20 + H, person_atom()))]))
+    out.append(h)
+    q = len(vars_)
+    second = ("o1", 2, ("v", h, "same", False)) if rng.random() < 0.5 else ("o1", 2, ("o1", 20 + H, person_atom()))
+    vars_.append(rs.Var(entity=0, vtype=rng.choice(["int", "float"]), unit="month", dflt=rng.randint(0, 3),
+                        formulas=[(1, ("o2", rng.choice([0, 1, 2, 3]), person_atom(), second))]))
+    out.append(q)
+    if rng.random() < 0.7:
+        g = len(vars_)
+        vars_.append(rs.Var(entity=1, vtype="int", unit="month", dflt=0,
+                            formulas=[(1, ("o2", rng.choice([0, 1]), ("o1", 10 + rng.randrange(3), person_atom()),
+                                           ("o1", 30 + rng.randrange(3), ("c", 0))))]))
+        out.append(g)
+    if rng.random() < 0.5:
+        g = len(vars_)
+        cond = ("o2", rng.choice([4, 5, 6]), person_atom(), ("o1", 2, ("v", h, "same", False)))
+        vars_.append(rs.Var(entity=1, vtype=rng.choice(["bool", "int"]), unit="month", dflt=0,
+                            formulas=[(1, ("o1", 40 + rng.randrange(3), cond))]))
+        out.append(g)
+    return out
+
+
+def _own_heavy(rng: random.Random, vars_: list) -> list:
+    """append a household-level INPUT variable (no formula, default sometimes non-zero: "rent")
+    and a person variable that reads it through the projection"""
+    r = len(vars_)
+    vars_.append(rs.Var(entity=1, vtype=rng.choice(["int", "float"]), unit="month", dflt=rng.choice([0, 0, 3, 5, -2])))
+    cands = [j for j, v in enumerate(vars_) if v.entity == 0 and rs._compat(v, "month")]
+    atom = ("c", rng.randint(1, 9))
+    if cands:
+        j = rng.choice(cands)
+        pt, add = rng.choice(rs._compat(vars_[j], "month"))
+        atom = ("v", j, pt, add)
+    q = len(vars_)
+    vars_.append(rs.Var(entity=0, vtype="int", unit="month", dflt=0,
+                        formulas=[(1, ("o2", rng.choice([0, 1]), ("o1", 2, ("v", r, "same", False)), atom))]))
+    return [r, q]
 
 
 def _group_heavy(rng: random.Random, vars_: list) -> list:
@@ -289,12 +404,26 @@ def _group_heavy(rng: random.Random, vars_: list) -> list:
     return out
 
 
-def gen_eqv(rng: random.Random, direct=False, faults=True, bad_rate=0.0) -> tuple:
-    nP, nG, mem, psit, gsit, k = gen_population(rng)
+def gen_eqv(rng: random.Random, direct=False, faults=True, bad_rate=0.0, unlisted=False) -> tuple:
+    nP, nG, mem, roles, psit, gsit, own, k = gen_population(rng, unlisted)
     fault_ids = [] if faults else None
     vars_ = rs.gen_vars(rng, rng.randint(3, 9), fault_ids=fault_ids, bad_rate=bad_rate)
     extra = _group_heavy(rng, vars_) if rng.random() < 0.6 else []
+    extra_r = _role_heavy(rng, vars_) if rng.random() < 0.6 else []
+    extra_o = _own_heavy(rng, vars_) if own else []
+    extra = extra + extra_r + extra_o
     inputs = rs.gen_inputs(rng, vars_, nP, nG, rate=0.3)
+    if own:
+        # a household the builder creates cannot carry a value: household-level inputs go to variables without
+        # formula only (elsewhere the own household would get the default AS AN INPUT: finding F-C11), hold the
+        # default at the own households, and the "rent" variable gets an input for sure
+        inputs = [i for i in inputs if vars_[i[0]].entity == 0 or not vars_[i[0]].formulas]
+        r = extra_o[0]
+        for tok in rng.sample(rs.MONTHS, 2):
+            if not any(i[0] == r and i[1] == tok for i in inputs):
+                inputs.append((r, tok, [rng.randint(1, 40) for _ in range(nG)]))
+        inputs = [(v, tok, [vars_[v].dflt if (vars_[v].entity != 0 and g in own) else x for g, x in enumerate(vals)])
+                  for v, tok, vals in inputs]
     reqs = rs.gen_requests(rng, vars_, rng.randint(3, 8), wrong=0.05, add=0.15)
     for j in extra:
         reqs.insert(rng.randrange(len(reqs) + 1), ("calc", j, rng.choice(rs.MONTHS)))
@@ -305,7 +434,7 @@ def gen_eqv(rng: random.Random, direct=False, faults=True, bad_rate=0.0) -> tupl
         reqs = reqs[:a] + [("arm", fid)] + reqs[a:]
         b = rng.randint(a + 1, len(reqs))
         reqs = reqs[:b] + [("disarm", fid)] + reqs[b:] + rng.sample([r for r in reqs if r[0] in ("calc", "add")], 1)
-    c = rs.SysCase(nP, nG, mem, rng.choice([1, 1, 2, 3]), vars_, inputs, reqs)
+    c = rs.SysCase(nP, nG, mem, rng.choice([1, 1, 2, 3]), vars_, inputs, reqs, roles=roles)
     sels = []
     for s in range(k):
         sels.append(("merge", [i for i in range(nP) if psit[i] == s], [g for g in range(nG) if gsit[g] == s]))
@@ -324,7 +453,7 @@ def gen_eqv(rng: random.Random, direct=False, faults=True, bad_rate=0.0) -> tupl
     gids = [f"h{g}" for g in range(nG)]
     if rng.random() < 0.3:                        # ids that do not sort like the indices
         rng.shuffle(pids); rng.shuffle(gids)
-    e = EqvCase(c, pids, gids, sels, direct=direct, member_seed=rng.randrange(1 << 30))
+    e = EqvCase(c, pids, gids, sels, direct=direct, member_seed=rng.randrange(1 << 30), own=own)
     tags = ["direct" if direct else "builder", f"situations={k}", f"persons={nP}", f"households={nG}"]
     if len(set(mem)) < nG:
         tags.append("empty-household")
@@ -334,6 +463,12 @@ def gen_eqv(rng: random.Random, direct=False, faults=True, bad_rate=0.0) -> tupl
         tags.append("fault")
     if extra:
         tags.append("group-heavy")
+    if extra_r:
+        tags.append("role-ops")
+    if own:
+        tags.append("unlisted-persons")
+    heads = {mem[i] for i in range(nP) if roles[i] == rs.UNIQUE_ROLE}
+    tags.append("heads>=half" if 2 * len(heads) >= nG else "heads<half")
     return e, tags
 
 
@@ -342,7 +477,8 @@ def generate(rng: random.Random, tier: str):
     out = []
     for i in range(n):
         direct = rng.random() < 0.2
-        e, tags = gen_eqv(rng, direct=direct, faults=rng.random() < 0.4, bad_rate=0.03 if rng.random() < 0.2 else 0.0)
+        e, tags = gen_eqv(rng, direct=direct, faults=rng.random() < 0.4, bad_rate=0.03 if rng.random() < 0.2 else 0.0,
+                          unlisted=(not direct) and rng.random() < 0.3)
         out.append(_case(e, tags))
     # malformed stream: selections that are not situations (a kept household names a person that is
     # not kept) — the builder must refuse them, the model answers ERR for them
@@ -373,9 +509,16 @@ def corpus_base():
     v4 = rs.Var(entity=1, vtype="int", unit="month", dflt=0, formulas=[(1, ("o1", 1, ("c", 1)))])          # household size
     v5 = rs.Var(entity=0, vtype="bool", unit="month", dflt=0,
                 formulas=[(1, ("o2", 4, ("o1", 2, ("v", 4, "same", False)), ("c", 3)))])                   # fewer than 3 persons in my household
-    reqs = [("calc", 2, M[1]), ("calc", 1, M[1]), ("calc", 5, M[1]), ("calc", 4, M[0]), ("add", 1, "year/2018,1,1/1"), ("calc", 3, "year/2018,1,1/1"),
+    v6 = rs.Var(entity=1, vtype="int", unit="month", dflt=0, formulas=[(1, ("o1", 22, ("v", 0, "same", False)))])     # the head's v0
+    v7 = rs.Var(entity=0, vtype="int", unit="month", dflt=0,
+                formulas=[(1, ("o2", 1, ("o1", 2, ("v", 6, "same", False)), ("v", 0, "same", False)))])               # my head's v0 minus mine
+    v8 = rs.Var(entity=1, vtype="int", unit="month", dflt=0,
+                formulas=[(1, ("o2", 0, ("o1", 11, ("v", 0, "same", False)), ("o2", 0, ("o1", 30, ("c", 0)), ("o1", 42, ("v", 0, "same", False)))))])
+    reqs = [("calc", 6, M[1]), ("calc", 7, M[1]), ("calc", 8, M[1]), ("calc", 6, M[0]),
+            ("calc", 2, M[1]), ("calc", 1, M[1]), ("calc", 5, M[1]), ("calc", 4, M[0]), ("add", 1, "year/2018,1,1/1"), ("calc", 3, "year/2018,1,1/1"),
             ("arm", 0), ("calc", 3, "year/2017,1,1/1"), ("disarm", 0), ("calc", 3, "year/2017,1,1/1"), ("calc", 2, "year/2018,1,1/1")]
-    c = rs.SysCase(5, 3, [1, 0, 1, 2, 0], 1, [v0, v1, v2, v3, v4, v5], [(0, M[1], [10, 20, 30, 40, 50]), (0, M[2], [1, 2, 3, 4, 5])], reqs)
+    c = rs.SysCase(5, 3, [1, 0, 1, 2, 0], 1, [v0, v1, v2, v3, v4, v5, v6, v7, v8], [(0, M[1], [10, 20, 30, 40, 50]), (0, M[2], [1, 2, 3, 4, 5])], reqs,
+                   roles=[2, 0, 1, 2, 2])          # heads: persons 0 (of h1), 3 (of h2), 4 (of h0) -- not in household order
     sels = [("merge", [1, 3, 4], [0, 2]), ("merge", [0, 2], [1]), ("permute", [4, 2, 0, 3, 1], [2, 0, 1]), ("permuted-part", [4, 1, 3], [2, 0])]
     for direct in (False, True):
         out.append(_case(EqvCase(c, [f"p{i}" for i in range(5)], [f"h{g}" for g in range(3)], sels, direct=direct), ("corpus",)))
@@ -386,6 +529,17 @@ def corpus_base():
              ("permuted-part", [3, 1], [4, 3, 2])]
     for direct in (False, True):
         out.append(_case(EqvCase(c2, ["b", "a", "d", "c"], ["z", "y", "x", "w", "v"], sels2, direct=direct), ("corpus", "empty-household-last")))
+    # persons listed in no household (the builder appends a household of their own) next to a declared household that
+    # carries a household-level input ("rent", default 3): the own households read the default, alone and together
+    rent = rs.Var(entity=1, vtype="float", unit="month", dflt=3)
+    share = rs.Var(entity=0, vtype="float", unit="month", dflt=0,
+                   formulas=[(1, ("o2", 0, ("o1", 2, ("v", 1, "same", False)), ("v", 0, "same", False)))])
+    nb = rs.Var(entity=1, vtype="int", unit="month", dflt=0, formulas=[(1, ("o2", 0, ("o1", 1, ("c", 1)), ("v", 1, "same", False)))])
+    c3 = rs.SysCase(4, 4, [2, 0, 3, 1], 1, [v0, rent, share, nb], [(0, M[1], [1, 2, 4, 8]), (1, M[1], [500, 40, 3, 3])],
+                    [("calc", 1, M[1]), ("calc", 2, M[1]), ("calc", 3, M[1]), ("calc", 1, M[0]), ("calc", 2, M[0])])
+    sels3 = [("merge", [1, 2], [0, 3]), ("merge", [0, 3], [1, 2]), ("merge", [0], [2]), ("merge", [2], [3]),
+             ("permute", [2, 3, 0, 1], [3, 1, 0, 2]), ("permuted-part", [3, 0], [2, 1])]
+    out.append(_case(EqvCase(c3, ["b1", "a1", "a2", "b2"], ["hA", "hB", "?", "?"], sels3, own={2: 0, 3: 2}), ("corpus", "unlisted-persons")))
     # a selection that is not a situation
     out.append(_case(EqvCase(c, [f"p{i}" for i in range(5)], [f"h{g}" for g in range(3)], [("merge", [0, 2], [1]), ("open", [1, 3], [0, 2])]),
                      ("corpus", "open-selection")))
@@ -435,14 +589,23 @@ def enumerate_thorough():
                 formulas=[(1, ("o2", 0, ("o1", 2, ("v", 1, "same", False)), ("v", 0, "same", False)))])
     v5 = rs.Var(entity=1, vtype="int", unit="month", dflt=0,
                 formulas=[(1, ("o2", 0, ("o1", 1, ("o2", 4, ("v", 0, "same", False), ("v", 3, "same", False))), ("v", 1, "same", False)))])
-    reqs = [("calc", 2, M[1]), ("calc", 3, M[1]), ("calc", 4, M[1]), ("calc", 5, M[1]), ("calc", 2, M[0]), ("calc", 5, M[0])]
+    v6 = rs.Var(entity=1, vtype="int", unit="month", dflt=0, formulas=[(1, ("o1", 22, ("v", 0, "same", False)))])      # the head's value
+    v7 = rs.Var(entity=0, vtype="int", unit="month", dflt=0,
+                formulas=[(1, ("o2", 1, ("o1", 2, ("v", 6, "same", False)), ("v", 0, "same", False)))])
+    v8 = rs.Var(entity=1, vtype="int", unit="month", dflt=0,
+                formulas=[(1, ("o2", 0, ("o1", 10, ("v", 0, "same", False)), ("o2", 0, ("o1", 32, ("c", 0)), ("o1", 40, ("v", 0, "same", False)))))])
+    reqs = [("calc", 2, M[1]), ("calc", 3, M[1]), ("calc", 4, M[1]), ("calc", 5, M[1]), ("calc", 2, M[0]), ("calc", 5, M[0]),
+            ("calc", 6, M[1]), ("calc", 7, M[1]), ("calc", 8, M[1])]
     out = []
     for nP in range(1, 5):
         for nG in range(1, 4):
             for mem in itertools.product(range(nG), repeat=nP):
                 mem = list(mem)
-                c = rs.SysCase(nP, nG, mem, 1, [v0, v1, v2, v3, v4, v5],
-                               [(0, M[1], [1, 2, 4, 8][:nP]), (1, M[1], [100, 200, 300][:nG])], reqs)
+                # the head of a household is its LAST member in storage order: over all membership maps the heads
+                # come in every order relative to their households
+                roles = [rs.UNIQUE_ROLE if i == max(k for k in range(nP) if mem[k] == mem[i]) else 0 for i in range(nP)]
+                c = rs.SysCase(nP, nG, mem, 1, [v0, v1, v2, v3, v4, v5, v6, v7, v8],
+                               [(0, M[1], [1, 2, 4, 8][:nP]), (1, M[1], [100, 200, 300][:nG])], reqs, roles=roles)
                 sels = []
                 for r in range(1, nG + 1):
                     for gs in itertools.combinations(range(nG), r):
@@ -466,10 +629,14 @@ PROP = Prop(
     enumerate_thorough=enumerate_thorough,
     exhaustive_note=("thorough tier: all 154 membership maps of 1-4 persons into 1-3 households (empty households included) x every union of "
                      "households as a part x every reordering of persons and of households (up to 143 per population), on a fixed rule system "
-                     "(household sum, sum of the others, projection of a household input, count of a condition on the projection)"),
+                     "(household sum, sum of the others, projection of a household input, count of a condition on the projection, the head's "
+                     "value and its projection, role-filtered sum / count / any; the head is the last-stored member of each household)"),
     rule=("rule systems of the C01 generator (ranked stream): 3-9 variables over person + household, every value type, definition periods "
           "month/year/day/eternity, 0-3 dated formulas each, optional end, neutralised variables, expression trees of depth <= 3 over "
           "add/sub/min/max/comparisons/where/scaling/negation, sums over members, projections, period transforms and the ADD option, "
+          "plus (60% each) variables built on purpose on the group operations and on the ROLE operations (value of the unique-role member "
+          "= value_from_person, in household formulas and through the person.household projector chain, role-filtered sum, nb_persons(role), "
+          "any(role)); roles: 75% of the non-empty households have a head (unique role, max 1), up to two parents (max 2), plain members; "
           "injected faults (40% of the systems: armed, requested, disarmed, requested again) and a 0.6% stream of invalid reads; "
           "populations made of 2-3 unrelated situations of 1-4 persons in 1-3 households each (15%: plus a household without member), "
           "persons and households of the situations interleaved at random (70%), households only (15%) or concatenated (15%); inputs "
@@ -480,6 +647,10 @@ PROP = Prop(
           "sort like the indices), 20% by hand (counts, members_entity_id, set_input). Oracle: merged answer read at the part's "
           "persons/households == the part's own answer, values and error classes, every request. Plus a 2.5% stream of selections that "
           "are not situations (a kept household names a person that is not kept): refused by the builder, ERR in the model. "
+          "30% of the builder cases list some persons in NO household (the builder appends a household of their own after the declared "
+          "ones; its answers are matched by id) while declared households carry household-level inputs on variables with zero and non-zero "
+          "defaults ('rent' read back through the projection). The order-dependent operations (value_nth_person, first_person, get_rank) "
+          "are not in the language: the permutation clause is false of them by definition. "
           "Non-trivial = the merged simulation and at least two parts returned values; distinct = distinct protocol lines."),
     assumptions=[
         "formulas are those of the expression DSL (arbitrary Python formulas are outside the model); the DSL has no n-th-member / "
@@ -489,8 +660,9 @@ PROP = Prop(
         "inputs are whole vectors per (variable, period): every situation gives a value for the same (variable, period) slots. "
         "(When only some entities of a merged document carry a value, SimulationBuilder.add_variable_value fills the others with the "
         "variable's default AS AN INPUT, which then takes precedence over their formula: such documents are outside the claim.)",
-        "every person is listed in exactly one household of its situation (unallocated persons get an own household appended by the "
-        "builder, in set-iteration order: C12's business)",
+        "a person listed in no household gets a household of its own appended by the builder (in set-iteration order: the harness matches "
+        "them by id); such a household cannot carry inputs, so in those documents household-level inputs go to variables without formula",
+        "roles respect their maxima (one head, two parents per household); value_from_person is used with the unique role only",
         "values are small integers, exactly representable in float32/int32 (numeric policy, DESIGN section 4); larger results are not compared",
         "numpy primitives used by the group operations (bincount, fancy indexing) are modelled",
         "the machine-level theorems (what Simulation.calculate returns) are for variable-ranked rule systems (C01); the meaning-level "
